@@ -171,7 +171,7 @@ def op_mpo_ham(w, s):
     mpo = Mpo(model, offset=Quantity(off), algo=s.get("algo", "qr"))
     ref = dense.dense_op(model, model.ham_terms, off)
     w.put(s["out"], "mpo", mpo, ref, s["mid"], {"hermitian": True, "symbolic": True, "offset": off})
-    w.check_value(s["out"], {"C01"}, "C01.mpo.dense", what="Mpo(model)")
+    w.check_value(s["out"], {"C01"}, "C01.mpo.dense", what="Mpo(model)", extra_scale=float(sum(abs(t.factor) for t in model.ham_terms)) + abs(off))
     h = ref
     if float(np.abs(h - h.conj().T).max()) > 1e-10 * max(float(np.abs(h).max()), 1e-300):
         raise HarnessError("generated Hamiltonian is not Hermitian")
@@ -395,6 +395,17 @@ def op_evolve(w, s):
     src = e.obj
     e.meta["bonds_before"] = list(src.bond_dims)
     full_rank_input = full_rank_in_sector(src, e.kind)
+    illcond = False
+    if method in ("vmf", "mu_vmf", "mu_cmf"):
+        # the regularised inverse (reg_epsilon) freezes directions whose Schmidt weight is far below sqrt(reg_epsilon):
+        # the schemes' error order is only claimed for well-conditioned states
+        vecp = e.shadow if e.kind == "mps" else dense.op_as_vector(e.shadow, dense.pdims(model))
+        worst = 1.0
+        for sv, b in zip(dense.schmidt_spectra(vecp, w.pd(e.mid, e.kind)), e.meta["bonds_before"][1:-1]):
+            k = min(len(sv), b)
+            if k and sv[0] > 0:
+                worst = min(worst, float(sv[k - 1] / sv[0]))
+        illcond = worst < 1e-3
     t_before = tens(e)
     coeff = src.coeff
     psi0 = e.shadow
@@ -411,6 +422,13 @@ def op_evolve(w, s):
         return "done"
     except (Violation, HarnessError):
         raise
+    except FloatingPointError as ex:
+        if illcond:
+            # overflow in the regularised inverse / exponential of an ill-conditioned mean-field problem: loud refusal
+            w.stats.probes["mean_field_illconditioned_overflow"] += 1
+            return "done"
+        raise V({"C09" if not imag else "C10"}, "evolve.raised", f"evolve {method} dt={dt} cfg={c}: FloatingPointError: {ex}",
+                sig=f"evolve.raised:{method}:{'imag' if imag else 'real'}:FloatingPointError")
     except AssertionError as ex:
         import traceback as _tb
         last = _tb.extract_tb(ex.__traceback__)[-1]
@@ -483,6 +501,9 @@ def op_evolve(w, s):
     if tdh is not None:
         _check_td_times(w, tdh, method, ec, float(dt), c)
     judged = sufficient and X_LO <= x <= X_HI and tdh is None
+    if judged and illcond:
+        w.stats.probes["mean_field_illconditioned_not_judged"] += 1
+        judged = False
     if sufficient and x <= 2.0:
         # ---------- layer 1: implementation vs its own coefficients (sharp, follows the library's tableau)
         ref1 = None
@@ -529,7 +550,7 @@ def op_evolve(w, s):
             raise V({"C09"}, "C09.ps.energy", f"one-site TDVP-PS changed the energy {e0!r} -> {e1_!r} at bonds {src.bond_dims} (x={x:.3g}, solver {c.get('ivp_solver')})")
     # ---- pairwise oracles on the same input
     pair = s.get("pair")
-    if pair and sufficient and not carried:
+    if pair and sufficient and not carried and not illcond:
         _pairwise(w, s, pair, e, eh, c, dt, bond_m, got, x, hn, imag, pid_main, tdh is not None)
     return "done"
 
